@@ -130,9 +130,49 @@ def _exec_case(args):
     return out
 
 
+CRASHED = {"__interpreter_crashed__": True}
+crash_log = []  # (function name, short description of the task) of tasks whose worker process died abruptly
+
+
 def pool_map(fn, tasks, chunksize=4):
-    with ProcessPoolExecutor(max_workers=ncpu()) as ex:
-        return list(ex.map(fn, tasks, chunksize=chunksize))
+    """Parallel map over worker processes. If a worker process dies abruptly (an abort/segfault inside a native solver),
+    every task is re-run in isolation (one single-use process each, 16 at a time); a task that kills its process again
+    yields CRASHED and is listed in crash_log. Drivers skip CRASHED results and report them in the evidence."""
+    from concurrent.futures import ThreadPoolExecutor
+    from concurrent.futures.process import BrokenProcessPool
+
+    tasks = list(tasks)
+    try:
+        with ProcessPoolExecutor(max_workers=ncpu()) as ex:
+            return list(ex.map(fn, tasks, chunksize=chunksize))
+    except BrokenProcessPool:
+        pass
+
+    def isolated(task):
+        try:
+            with ProcessPoolExecutor(max_workers=1) as ex1:
+                return ex1.submit(fn, task).result()
+        except BrokenProcessPool:
+            crash_log.append((getattr(fn, "__name__", str(fn)), repr(task)[:600]))
+            try:  # keep the full task for reproduction
+                import pickle
+
+                os.makedirs(BUILD, exist_ok=True)
+                with open(os.path.join(BUILD, f"crashed_task_{len(crash_log)}.pkl"), "wb") as f:
+                    pickle.dump((getattr(fn, "__module__", ""), getattr(fn, "__name__", ""), task), f)
+            except Exception:
+                pass
+            return CRASHED
+
+    with ThreadPoolExecutor(max_workers=ncpu()) as tex:
+        out = list(tex.map(isolated, tasks))
+    if crash_log:
+        raise InterpreterCrash(list(crash_log))
+    return out
+
+
+class InterpreterCrash(Exception):
+    """A task killed its (isolated) worker process; args[0] lists (function, task) pairs."""
 
 
 def configs_for(systems, modes, backends=None):
